@@ -78,6 +78,7 @@ type half struct {
 	wclosed  bool
 	rclosed  bool
 	broken   bool
+	shorted  bool
 	kicked   bool
 	rawW     int
 	rawR     int
@@ -170,8 +171,13 @@ func (e *endpoint) Write(b []byte) (int, error) {
 	}
 	n := len(b)
 	var err error
-	if h.broken {
-		n, err = n/2, errBroken
+	if h.broken { // the first refused write is a short write (half is accepted), later ones accept nothing
+		if h.shorted {
+			n = 0
+		} else {
+			n, h.shorted = n/2, true
+		}
+		err = errBroken
 	}
 	if !h.rclosed {
 		h.q = append(h.q, b[:n]...)
